@@ -254,6 +254,19 @@ def effective (q : Q) : Q :=
   | .avg f => { q with filter := .and q.filter (.ne f .null) }
   | _ => q
 
+/-- aggregates over the groups of `groupBy: [flag]`, several in one request, each with its own filter on the group:
+    per group (key, count age > a, count a < age < b, count age > a with name ≠ "a", sum age > a, sum a < age < b) -/
+def groupedPair (docs : List Doc) (a b : Int) : List (V × Nat × Nat × Nat × Int × Int) :=
+  let keys := (docs.map (fun d => d.get "flag")).eraseDups
+  keys.map (fun k =>
+    let g := docs.filter (fun d => d.get "flag" == k)
+    let ageOf (d : Doc) : Option Int := match d.get "age" with | .int i => some i | _ => none
+    let wide := g.filter (fun d => match ageOf d with | some i => decide (i > a) | none => false)
+    let narrow := wide.filter (fun d => match ageOf d with | some i => decide (i < b) | none => false)
+    let named := wide.filter (fun d => d.get "name" != .str [0x61])
+    let sumAge (l : List Doc) : Int := (l.filterMap ageOf).foldl (· + ·) 0
+    (k, wide.length, narrow.length, named.length, sumAge wide, sumAge narrow))
+
 def evalPinned (q : Q) (docs : List Doc) : AggRes := aggregate q.sel (pipeline lessPinned (effective q) docs)
 def evalSpec (q : Q) (docs : List Doc) : AggRes := aggregate q.sel (pipeline lessLex (effective q) docs)
 
